@@ -295,12 +295,20 @@ class Interp:
             return [v for _, v in fr.yields]
         rets = list(fr.returns)
         if env2 is not None and not z3.is_false(z3.simplify(pc2)):
-            rets.append((pc2, None))
+            rets.append((pc2, None, self._heap_snapshot()))
         if not rets:
             if env2 is None:
                 raise _Dead()
             return None
-        return self.merge_many(rets)
+        # the heap seen by the caller is the merge of the heaps at the return points
+        heap = rets[-1][2]
+        for c, _, h in reversed(rets[:-1]):
+            _, heap = self.merge_env(c, {}, h, {}, heap)
+        ctx.heap = heap
+        return self.merge_many([(c, v) for c, v, _ in rets])
+
+    def _heap_snapshot(self):
+        return {oid: {k: (list(v) if isinstance(v, list) else v) for k, v in at.items()} for oid, at in self.ctx.heap.items()}
 
     def merge_many(self, rets):
         val = rets[-1][1]
@@ -415,7 +423,7 @@ class Interp:
             return env, pc
         if isinstance(s, ast.Return):
             v = None if s.value is None else self.eval(s.value, env, fr, pc)
-            fr.returns.append((pc, v))
+            fr.returns.append((pc, v, self._heap_snapshot()))
             return None, pc
         if isinstance(s, ast.Raise):
             name = 'Exception'
